@@ -333,6 +333,11 @@ class Model():
         for field_name in (left_field_name, right_field_name):
             field_assets = getattr(association, field_name)
 
+            # The list wrapper checks its length lazily and only once after
+            # a change, a list that was appended to and looked at (or refused)
+            # before would pass. Make sure the multiplicity holds right now.
+            field_assets.validate_length()
+
             # Only assets that are part of the model can be associated
             for field_asset in field_assets:
                 if not any(field_asset is asset for asset in self.assets):
